@@ -113,7 +113,7 @@ PList(d, p) == IF p \in DOMAIN atts[d] THEN atts[d][p] ELSE IF p \in DOMAIN old[
 LegalKP(d, k, p) ==
   LET t == tree[d] IN
   CASE k = "put"  -> \/ p = 0 /\ (IF DOMAIN t = {} THEN TRUE ELSE t[cur[d]].d)
-                     \/ p \in Leaves(t) /\ ~t[p].d /\ (allow \/ p = cur[d])
+                     \/ p \in Leaves(t) /\ (allow \/ p = cur[d])          \* (a tombstoned leaf too: the child resurrects that branch)
     [] k = "del"  -> p \in Leaves(t) /\ ~t[p].d /\ (allow \/ p = cur[d])
     [] k = "push" -> IF allow THEN p = 0 \/ (p \in DOMAIN t /\ ~t[p].d)
                      ELSE (p = 0 /\ DOMAIN t = {}) \/ (p # 0 /\ p = cur[d] /\ ~t[p].d)
@@ -165,6 +165,10 @@ GhostCommit(d, k, r, p, s, ok) ==
 Step(a, d, k, r, p, s, h) == hist' = Append(hist, [a |-> a, d |-> d, k |-> k, r |-> r, p |-> p, s |-> s, h |-> h])
 Room == Len(hist) < (IF pend = None THEN MaxSteps ELSE MaxSteps - 1)       \* a bracket can always be closed
 
+(* environment assumption: while a write that repeats attachments (stubs) is parked, no other writer removes the data they stand for
+   (the gateway has no way to notice: it would commit a reference to data that is gone) *)
+PendStubsKept == pend # None => \A n \in Names : pend.s[n] = -1 => <<pend.d, want[pend.p][n].c>> \in blob
+
 (* ---- a complete write ---- *)
 ImplWrite(d, k, r, p, s, h) ==
   LET nt == AddRev(tree[d], r, Par(d, k, p), k = "del")
@@ -180,11 +184,12 @@ WriteOK(d, k, p, s, h) ==
 Write(d, k, p, s, h) ==
   /\ WriteOK(d, k, p, s, h)
   /\ ImplWrite(d, k, nr + 1, p, s, h) /\ GhostCommit(d, k, nr + 1, p, s, TRUE)
+  /\ PendStubsKept'
   /\ Step("W", d, k, nr + 1, p, s, h)
 
 (* ---- the bracketed write ---- *)
 ImplBegin(d, k, r, p, s, h) ==
-  /\ pend' = [a |-> "pend", d |-> d, k |-> k, r |-> r, p |-> p, s |-> s, h |-> h] /\ inner' = 0 /\ nr' = r
+  /\ pend' = [a |-> "pend", d |-> d, k |-> k, r |-> r, p |-> p, s |-> s, h |-> h, mp |-> Par(d, k, p)] /\ inner' = 0 /\ nr' = r
   /\ blob' = blob \cup Stored(d, s) /\ rd' = RdOf(atts, blob') /\ api' = ApiOf(atts, blob') /\ apierr' = ApiErrOf(atts, blob')
   /\ UNCHANGED <<tree, cur, gen, cls, atts, old, badblob>>
 GhostIdle == UNCHANGED <<want, residue, tainted, dev>> /\ settled' = FALSE
@@ -194,6 +199,8 @@ Begin(d, k, p, s, h) ==
   /\ ImplBegin(d, k, nr + 1, p, s, h) /\ GhostIdle
   /\ Step("B", d, k, nr + 1, p, s, h)
 
+(* Put keeps the matchRev its first attempt found (a Put without _rev onto a tombstone retries as a Put on that tombstone) *)
+EP(q) == IF q.k = "put" /\ q.p = 0 /\ q.mp # 0 THEN q.mp ELSE q.p
 NoSpec == [n \in Names |-> 0]
 Touch ==      \* only the CAS of the bracketed write's document changes
   /\ pend # None /\ inner < MaxInner /\ Room
@@ -204,15 +211,16 @@ ImplEnd(ok) ==
   /\ pend' = None /\ inner' = 0
   /\ IF ok
      THEN LET q == pend
-              nt == AddRev(tree[q.d], q.r, Par(q.d, q.k, q.p), q.k = "del")
-              g  == Ov(gen, q.r :> GenOf(Par(q.d, q.k, q.p)) + 1)
+              ep == EP(pend)
+              nt == AddRev(tree[q.d], q.r, Par(q.d, q.k, ep), q.k = "del")
+              g  == Ov(gen, q.r :> GenOf(Par(q.d, q.k, ep)) + 1)
               c  == Ov(cls, q.r :> (IF q.k = "push" THEN (IF q.h = 1 THEN 2 ELSE 0) ELSE 1))
-          IN /\ \E nc \in WinnersOf(nt, g, c) : ImplCommit(q.d, q.k, q.r, q.p, q.s, q.h, nt, nc, {})
+          IN /\ \E nc \in WinnersOf(nt, g, c) : ImplCommit(q.d, q.k, q.r, ep, q.s, q.h, nt, nc, {})
              /\ UNCHANGED nr
      ELSE UNCHANGED <<tree, cur, gen, cls, nr, atts, old, rd, api, apierr, blob, badblob>>
 End ==
   /\ pend # None
-  /\ LET ok == (Legal(pend.d, pend.k, pend.p, pend.s) /\ pend.d \notin tainted) = TRUE IN
+  /\ LET ok == (Legal(pend.d, pend.k, EP(pend), pend.s) /\ pend.d \notin tainted) = TRUE IN
        /\ ImplEnd(ok) /\ GhostCommit(pend.d, pend.k, pend.r, pend.p, pend.s, ok)
   /\ UNCHANGED conf
   /\ Step("E", pend.d, pend.k, pend.r, pend.p, pend.s, pend.h)
